@@ -11,6 +11,15 @@ database and the result of a following program must be identical.  The fake
 driver's conformance is established on the same programs by a third run on
 the real, thread backed ``aiosqlite`` with a stock event loop.
 
+*result accessor family* (part of the equivalence oracle) -- ``conn.stream`` / ``conn.stream_scalars`` /
+``session.stream`` / ``session.stream_scalars`` against ``execute`` / ``scalars`` with ``stream_results`` through the
+same program text: 20 filter chains (unique, mappings, scalars, scalars(1), columns(1), yield_per(1), tuples and their
+pairs) x 17 terminal accessors (all, fetchall, first, one, one_or_none, scalar, scalar_one, scalar_one_or_none,
+fetchone, fetchmany(1|2|None), partitions(2), iteration, two next() calls, keys, freeze) x Core / ORM columns / ORM
+entity statements x result sizes 0, 1, 2 (distinct and duplicate), 3 (with a duplicate row); every (route, chain) group
+is explored by one shard, simplest case first.  (ORM + unique() + sized fetch is left out: the ORM refuses it on a
+server-side cursor, which pysqlite -- the synchronous side -- does not have.)
+
 *cancellation / timeout* -- the program is run once to count the loop-step
 boundaries at which the driving task is still pending (a superset of the await
 points at which it is suspended: ~40 per 3-op program, 17 of them distinct
@@ -63,6 +72,13 @@ Findings:
      connection was interrupted by CancelledError in a release that is not shielded (``await conn.close()``,
      ``session.commit()/rollback()/close()``, leaving ``async with session.begin()``), `_finalize_fairy` invalidated the
      record and re-raised *before* ``connection_record.checkin()``.  The check is silent on this since 053d3d7.
+  F3 (open; one root cause -- filters established on an AsyncResult live on the wrapper, ``scalars()`` / ``mappings()``
+     hand only the underlying Result on; patch in /verif/proposed_fixes/c29_asyncresult_filters_and_freeze.diff):
+     ``equiv result accessor conn.stream(stmt).unique().scalars().all() with rows v=[10, 10] -> sync [10], async(virtual loop) [10, 10]``
+     and the same for ``.unique().mappings()``, ``.unique().scalars(1)``, ``.columns(1).scalars()``, ``.columns(1).mappings()``.
+  F4 (open, same patch): ``equiv result accessor conn.stream(stmt)[...].freeze() with rows v=[] -> sync [[], []],
+     async(virtual loop) '!TypeError'`` -- ``AsyncResult.freeze()`` builds ``FrozenResult(self)``, whose constructor
+     calls the coroutine method ``fetchall()`` without awaiting it.
   Observation (not a violation of the statement): cancelling ``await session.close()`` inside ``async with
   session.begin()`` makes the block's exit raise AssertionError (``assert stx is not None`` in Session.rollback) instead of
   CancelledError; connections and transactions are still cleaned up.
@@ -75,6 +91,9 @@ Mutations caught (each a VIOLATION with a signature other than F1's; verified on
   M4 ext/asyncio/session.py AsyncSession.get: ``populate_existing`` no longer passed on (proxy drops an argument) ->
      ``equiv session scope, op get -> sync (1, 111), async (1, 11)``
   M7 ext/asyncio/engine.py AsyncTransaction.rollback proxies to commit -> final database differs
+  A1 ext/asyncio/result.py AsyncScalarResult.one_or_none passes first()'s flags (no second-row check) ->
+     ``conn.stream_scalars(stmt).one_or_none() with rows v=[10, 10] -> sync '!MultipleResultsFound', async 10``
+  A2 ext/asyncio/result.py AsyncResult.scalar_one no longer raises for no row; A3 AsyncScalarResult.fetchmany ignores its size
   M1 / M6 (``asyncio.shield`` removed from AsyncConnection.__aexit__ / AsyncSession.__aexit__) were caught through the F2
   reading before 053d3d7; with that repair an interrupted, unshielded close invalidates and checks in the connection, the
   property holds, and they are (correctly) no longer reported.
@@ -105,9 +124,11 @@ META = dict(
         "sqlite3 autocommit=False transaction control on both sides; pool AsyncAdaptedQueuePool(1, 0) / QueuePool(1, 0)",
     ],
     bounds=dict(
-        quick="equivalence: all programs <=2 ops over 16 core / 16 session ops x 4 scopes (+ <=3 over 8 ops, + cold pool <=1) ; "
+        quick="equivalence: all programs <=2 ops over 16 core / 16 session ops x 4 scopes (+ <=3 over 8 ops, + cold pool <=1); result "
+        "accessors: 20 filter chains x 17 accessors x {Core, ORM entity} x 4 result sizes; "
         "cancellation: every step boundary of all programs <=2 ops over 10 ops x 4 scopes (warm), <=1 (cold), 27 scenario programs of 3-5 ops",
-        thorough="equivalence: <=3 over all ops, <=4 over 6 ops; cancellation: + all programs <=3 over 8 ops; wait_for timeouts at every "
+        thorough="equivalence: <=3 over all ops, <=4 over 6 ops; result accessors: + ORM column statements, 5 result sizes, every case also on "
+        "the real aiosqlite; cancellation: + all programs <=3 over 8 ops; wait_for timeouts at every "
         "boundary of programs <=2; two tasks sharing the pool, either one cancelled at every boundary",
     ),
 )
@@ -215,15 +236,45 @@ def cancel_family(tier):
 N_SHARDS = dict(quick=(16, 48), thorough=(48, 144))
 
 
+def accessor_groups():
+    """groups of the result-accessor family: (route, chain); every group is explored by one shard so that the first
+    (minimal) failing case of a group is the same whatever the sharding"""
+    from ..worlds import asyncworld as W
+
+    return [("stream", c) for c in W.ACC_CHAINS_RESULT] + [("stream_scalars", c) for c in W.ACC_CHAINS_SCALAR]
+
+
+def accessor_cases(group, tier):
+    """simplest first: accessor, api, then result size"""
+    from ..worlds import asyncworld as W
+
+    route, chain = group
+    apis = ("core", "orment") if tier == "quick" else W.ACC_APIS
+    sizes = tuple(z for z in W.ACC_SIZES if tier != "quick" or z != (10, 20))
+    for acc in W.ACC_ACCESSORS:
+        for api in apis:
+            if api != "core" and "unique" in chain and acc[0] in ("fetchmany", "partitions") and acc[1] is not None:
+                # ORM + unique() + sized fetch: with a server-side cursor the ORM refuses ("Can't use the ORM yield_per feature in
+                # conjunction with unique()"); pysqlite has no server-side cursors, so the synchronous side cannot reproduce it
+                continue
+            for size in sizes:
+                yield (api, route, chain, acc), size
+
+
 def shards(tier, seed):
     ne, nc = N_SHARDS[tier]
-    return [("equiv", i, ne) for i in range(ne)] + [("inject", i, nc) for i in range(nc)]
+    na = len(accessor_groups())
+    return [("equiv", i, ne) for i in range(ne)] + [("inject", i, nc) for i in range(nc)] + [("acc", i, na) for i in range(na)]
 
 
 # ------------------------------------------------------------------ checks
 
 
 def _prog_txt(scope, pre, ops):
+    if scope == "acc":
+        from ..worlds import asyncworld as W
+
+        return W.acc_text(ops)
     return "%s/%s[%s]" % (scope, pre, " ".join(ops))
 
 
@@ -246,8 +297,14 @@ def check_equiv(W, world, scope, pre, ops, real=True):
     for who, steps, err, final, follow in runs:
         for k, (x, y) in enumerate(itertools.zip_longest(s.steps, steps)):
             if x != y:
-                problems.append(("equiv-step", "equiv %s scope, op %s -> sync %r, %s %r" % (scope, (x or y)[0], x and x[1], who, y and y[1]),
-                                 "program %s step %d\nsync steps %r\n%s steps %r" % (txt, k, s.steps, who, steps)))
+                if scope == "acc":
+                    shown = txt
+                    if ops[3][0] == "freeze":  # one signature whatever filters precede freeze()
+                        shown = txt.split("(stmt)")[0] + "(stmt)[...].freeze()"
+                    sig = "equiv result accessor %s with rows v=%r -> sync %r, %s %r" % (shown, [r[1] for r in world.seed], x and x[1], who, y and y[1])
+                else:
+                    sig = "equiv %s scope, op %s -> sync %r, %s %r" % (scope, (x or y)[0], x and x[1], who, y and y[1])
+                problems.append(("equiv-step", sig, "program %s step %d\nsync steps %r\n%s steps %r" % (txt, k, s.steps, who, steps)))
                 break
         else:
             if s.error != err:
@@ -257,9 +314,12 @@ def check_equiv(W, world, scope, pre, ops, real=True):
                                  "program %s: sync %r, %s %r" % (txt, s.final, who, final)))
             elif s.follow != follow:
                 problems.append(("equiv-follow", "equiv %s scope -> following program: sync %r, %s %r" % (scope, s.follow, who, follow), "program " + txt))
+    differs = bool(problems)
     for kind, msg in _post(a, s.warnings):
+        if kind == "warning" and differs:
+            continue  # a consequence of the difference already reported
         problems.append(("clean-" + kind, "no injection, %s scope -> %s" % (scope, msg), "program " + txt))
-    if s.warnings != a.warnings:
+    if s.warnings != a.warnings and not differs:
         problems.append(("equiv-warnings", "equiv %s scope -> warnings differ: sync %r, async %r" % (scope, s.warnings, a.warnings), "program " + txt))
     if s.checkedout != 0:
         problems.append(("sync-checkedout", "equiv %s -> sync pool.checkedout()=%d after the program" % (txt, s.checkedout), ""))
@@ -548,6 +608,29 @@ def run_shard(shard, tier, rec):
                                         suspensions_of_async_task=info["counter"].suspensions))
                 for kind, sig, detail in problems:
                     rec.violation(sig, detail, dict(kind="equiv", scope=scope, pre=pre, ops=list(ops)), kind=sig)
+        elif part == "acc":
+            group = accessor_groups()[idx]
+            for k, (spec, size) in enumerate(accessor_cases(group, tier)):
+                world.seed = [(i + 1, v) for i, v in enumerate(size)]
+                try:
+                    real = tier != "quick" or k % 8 == 0
+                    problems, info = check_equiv(W, world, "acc", "warm", spec, real=real)
+                finally:
+                    pass
+                rec.case(("acc", spec, size), nontrivial=len(size) >= 2)
+                rec.count("accessor_cases")
+                if real:
+                    rec.count("real_aiosqlite_conformance_runs")
+                if info is not None:
+                    rec.outcome(("acc", repr(info["sync"].steps)))
+                    if len(size) == 3 and k % 37 == 5:
+                        rec.sample(dict(kind="result accessor equivalence", program=_prog_txt("acc", "warm", spec), rows=list(size),
+                                        outcome=repr(info["sync"].steps[0][1])[:200]))
+                for kind, sig, detail in problems:
+                    fam = "freeze" if spec[3][0] == "freeze" else "fetch"
+                    rec.violation(sig, detail, dict(kind="acc", spec=[spec[0], spec[1], list(spec[2]), list(spec[3])], size=list(size)),
+                                  kind=("acc", kind if kind != "equiv-step" else "", group, fam) if kind == "equiv-step" else sig)
+            world.seed = ()
         else:
             for k, (kind, scope, pre, ops) in enumerate(cancel_family(tier)):
                 if k % n != idx:
@@ -594,8 +677,12 @@ def replay(case):
     W, world = _world("replay")
     try:
         kind = case["kind"]
-        ops = tuple(case["ops"])
-        if kind == "equiv":
+        ops = tuple(case.get("ops", ()))
+        if kind == "acc":
+            sp = case["spec"]
+            world.seed = [(i + 1, v) for i, v in enumerate(case["size"])]
+            problems, _ = check_equiv(W, world, "acc", "warm", (sp[0], sp[1], tuple(sp[2]), tuple(sp[3])), real=True)
+        elif kind == "equiv":
             problems, _ = check_equiv(W, world, case["scope"], case["pre"], ops, real=True)
         elif kind in ("cancel", "timeout"):
             problems, _ = check_inject(W, world, kind, case["scope"], case["pre"], ops, case["j"])
